@@ -663,6 +663,119 @@ func c18Extras(rep *ev.Reporter, mu *sync.Mutex) int64 {
 			}
 		}
 	}
+	n += c18Rulesets(rep, report)
+	return n
+}
+
+// c18Rulesets: arrays of rules. Every rule of a ruleset must translate exactly as it does on its
+// own, keep its own metadata (omitted desc/salience are the defaults), and a malformed rule at
+// any position makes the whole ruleset an error.
+func c18Rulesets(rep *ev.Reporter, report func(sig, what, id, js, text string)) int64 {
+	type jr struct {
+		js    string
+		name  string
+		desc  string
+		sal   int
+		valid bool
+	}
+	rules := []jr{
+		{`{"name":"A","desc":"da","salience":10,"when":"F.B","then":["K.I = 1"]}`, "A", "da", 10, true},
+		{`{"name":"B","when":{"eq":["F.I",5]},"then":[{"set":["K.I2",2]}]}`, "B", "", 0, true},
+		{`{"name":"C","desc":"","salience":0,"when":"F.I2 == 3","then":["K.In = 3"]}`, "C", "", 0, true},
+		{`{"name":"D","salience":-3,"when":"!F.B","then":["K.I8 = 4"]}`, "D", "", -3, true},
+		{`{"name":"E","desc":"de","when":{"and":[{"obj":"F.B"},{"gt":["F.I",1]}]},"then":[{"call":["F.SetI",9]},"K.I16 = 5"]}`, "E", "de", 0, true},
+		{`{"name":"M1","then":["K.I = 1"]}`, "M1", "", 0, false},
+		{`{"name":"M2","when":"F.B"}`, "M2", "", 0, false},
+		{`{"when":"F.B","then":["K.I = 1"]}`, "", "", 0, false},
+		{`{"name":"M4","when":null,"then":["K.I = 1"]}`, "M4", "", 0, false},
+	}
+	var n int64
+	var sets [][]int
+	for a := range rules {
+		sets = append(sets, []int{a})
+		for b := range rules {
+			if a == b {
+				continue
+			}
+			sets = append(sets, []int{a, b})
+			for c := range rules {
+				if c == a || c == b || (!rules[a].valid && !rules[b].valid) {
+					continue
+				}
+				sets = append(sets, []int{a, b, c})
+			}
+		}
+	}
+	for si, set := range sets {
+		id := fmt.Sprintf("c18/ruleset/%d", si)
+		if rep.ReplayFilter != "" && rep.ReplayFilter != id {
+			continue
+		}
+		n++
+		var parts []string
+		allValid := true
+		var names []string
+		for _, i := range set {
+			parts = append(parts, rules[i].js)
+			allValid = allValid && rules[i].valid
+			names = append(names, rules[i].name)
+		}
+		js := "[" + strings.Join(parts, ",") + "]"
+		shape := strings.Join(names, ",")
+		var text string
+		var terr error
+		func() {
+			defer func() {
+				if r := recover(); r != nil {
+					terr = fmt.Errorf("PANIC %v", r)
+				}
+			}()
+			text, terr = pkg.ParseJSONRuleset([]byte(js))
+		}()
+		if terr != nil && strings.HasPrefix(terr.Error(), "PANIC") {
+			report("C18:ruleset-panics:"+shape, terr.Error(), id, js, "")
+			continue
+		}
+		if !allValid {
+			if terr == nil {
+				lib := ast.NewKnowledgeLibrary()
+				if berr := builder.NewRuleBuilder(lib).BuildRuleFromResource(hx.KBName, hx.KBVer, pkg.NewBytesResource([]byte(text))); berr == nil {
+					report("C18:malformed-rule-in-ruleset-accepted", fmt.Sprintf("ruleset [%s] contains a malformed rule but neither the translator nor the builder rejected it", shape), id, js, text)
+				}
+			}
+			continue
+		}
+		if terr != nil {
+			report("C18:valid-ruleset-rejected", terr.Error(), id, js, "")
+			continue
+		}
+		var alone strings.Builder
+		for _, i := range set {
+			t, err := pkg.ParseJSONRule([]byte(rules[i].js))
+			if err != nil {
+				report("harness:C18-ruleset-rule-invalid-alone", err.Error(), id, rules[i].js, "")
+			}
+			alone.WriteString(t)
+		}
+		if alone.String() != text {
+			report("C18:rule-translates-differently-inside-a-ruleset", fmt.Sprintf("ruleset [%s]: the translation differs from the translations of its rules taken one by one\n  one by one:\n%s", shape, alone.String()), id, js, text)
+			continue
+		}
+		// through the resource loader and the builder: metadata per rule
+		res, _ := pkg.NewJSONResourceFromResource(pkg.NewBytesResource([]byte(js)))
+		lib := ast.NewKnowledgeLibrary()
+		if berr := builder.NewRuleBuilder(lib).BuildRuleFromResource(hx.KBName, hx.KBVer, res); berr != nil {
+			report("C18:valid-ruleset-rejected-by-builder", firstErr(berr), id, js, text)
+			continue
+		}
+		kb := lib.GetKnowledgeBase(hx.KBName, hx.KBVer)
+		for _, i := range set {
+			re := kb.RuleEntries[rules[i].name]
+			if re == nil || re.RuleDescription != rules[i].desc || re.Salience != rules[i].sal {
+				report("C18:ruleset-metadata-differs", fmt.Sprintf("ruleset [%s]: rule %s should have desc %q salience %d, knowledge base has %+v", shape, rules[i].name, rules[i].desc, rules[i].sal, re), id, js, text)
+			}
+		}
+	}
 	return n
 }
 
